@@ -61,7 +61,7 @@ CLAUSE_PROPERTY = {
     'obs.no_start_beyond_tend': 'C06', 'obs.no_early_stop': 'C06', 'ver.chain': 'C06', 'ver.endpoint': 'C06',
     'acc.tile_start': 'C06', 'acc.tile_contiguous': 'C06', 'acc.no_start_beyond_tend': 'C06',
     'acc.no_early_stop': 'C06', 'acc.fixed_step_count': 'C06', 'conf.outcome': 'C06',
-    'conf.restart': 'C09', 'conf.riar': 'C09', 'conf.dt': 'C09', 'conf.dtnew': 'C09', 'conf.level_dt': 'C09',
+    'conf.restart': 'C09', 'conf.riar': 'C09', 'conf.dt': 'C09', 'conf.dtnew': 'C09', 'conf.level_dt': 'note',
     'obs.one_dt_per_block': 'C09', 'obs.crash_only_after_budget': 'C09', 'acc.retry_budget': 'C09',
     'conf.error': 'C09',
     'val.u0_copied': 'C13', 'val.caller_u0_unchanged': 'C13', 'val.logged_unchanged': 'C13',
